@@ -259,7 +259,9 @@ pub fn make_handler(scripts: Vec<Script>, log: SharedLog) -> impl for<'a, 'b> Fn
             let view = ReqView { id: 0, role: u16::from(req.role()), flags: req.flags().bits(), env, env_len: req.env_len() };
             let started_at = l.clock;
             l.invocations.push(Invocation { view: Some(view), zero_len_reads_ok: true, started_at, ..Invocation::default() });
-            (idx, scripts[idx.min(scripts.len() - 1)].clone())
+            // the request names its script through the marker variable XI (fallback: invocation count)
+            let which = req.get_var("XI").and_then(|v| v.first().map(|b| usize::from(b.wrapping_sub(b'0')))).unwrap_or(idx);
+            (idx, scripts[which.min(scripts.len() - 1)].clone())
         };
         let log2 = log.clone();
         Box::pin(async move {
